@@ -467,12 +467,47 @@ impl EvalResult {
     /// Note that this function is actually more constrained than the SPARQL spec.
     /// In SPARQL, the order is partial,
     /// while this function falls back to the total order defined by [`Term::cmp`].
+    ///
+    /// In order for this to be a genuine total preorder (comparing by value *or* by [`Term::cmp`]
+    /// depending on the pair would not be transitive),
+    /// results are first ranked by a class (term kind and, for literals, kind of value),
+    /// and only compared by value inside a class where values are totally ordered.
     pub fn sparql_order_by(&self, other: &Option<Self>) -> Ordering {
         if let Some(val) = other {
-            self.sparql_cmp(val)
-                .unwrap_or_else(|| Term::cmp(&self.as_term(), val.as_term()))
+            let class = self.order_by_class();
+            class.cmp(&val.order_by_class()).then_with(|| {
+                let by_value = if (2..=7).contains(&class) {
+                    self.sparql_cmp(val)
+                } else {
+                    None
+                };
+                by_value.unwrap_or_else(|| Term::cmp(&self.as_term(), val.as_term()))
+            })
         } else {
             Ordering::Greater
+        }
+    }
+
+    /// The class used by [`sparql_order_by`](Self::sparql_order_by):
+    /// blank nodes < IRIs < literals (numbers < simple strings < language strings < booleans
+    /// < timezoned dateTimes < naive dateTimes < all other literals) < quoted triples < variables.
+    fn order_by_class(&self) -> u8 {
+        use crate::value::XsdDateTime;
+        match self.as_value() {
+            Some(SparqlValue::Number(n)) if !n.coerce_to_double().is_nan() => 2,
+            Some(SparqlValue::String(_, None)) => 3,
+            Some(SparqlValue::String(_, Some(_))) => 4,
+            Some(SparqlValue::Boolean(Some(_))) => 5,
+            Some(SparqlValue::DateTime(Some(XsdDateTime::Timezoned(_)))) => 6,
+            Some(SparqlValue::DateTime(Some(XsdDateTime::Naive(_)))) => 7,
+            Some(_) => 8,
+            None => match self.as_term().kind() {
+                sophia_api::term::TermKind::BlankNode => 0,
+                sophia_api::term::TermKind::Iri => 1,
+                sophia_api::term::TermKind::Literal => 8,
+                sophia_api::term::TermKind::Triple => 9,
+                sophia_api::term::TermKind::Variable => 10,
+            },
         }
     }
 }
